@@ -536,6 +536,16 @@ impl<'a> Enc<'a> {
         });
         match root {
             IntRoot::Unconstrained => unc(out, n),
+            // asn1rs stores an upper bound of i64::MAX as "no upper bound": (0..9223372036854775807) is (0..MAX) for it
+            // and shares that recorded deviation ((lb..i64::MAX) with lb != 0 has the same bits either way)
+            IntRoot::Constrained(0, b) if b == i64::MAX as i128 => {
+                self.classes.insert("int-zero-max");
+                if self.dev.int_zero_max_as_unconstrained {
+                    unc(out, n)
+                } else {
+                    cwn(out, 0, b, n)
+                }
+            }
             IntRoot::Constrained(a, b) => cwn(out, a, b, n),
             IntRoot::Semi(0) => {
                 self.classes.insert("int-zero-max");
